@@ -714,15 +714,14 @@ impl<T: PPGEvaluatorStrategy> PPGEvaluator<T> {
         }
 
         let filter_if_renamed = |job_id: &str| -> bool {
-            if job_id.contains(":::") {
-                let last_time = multi_parts_to_jobs.get(job_id);
-                match last_time {
+            // keep the records of job_id, unless one of its outputs is now produced by a
+            // (present) job of a different name
+            job_id
+                .split(":::")
+                .all(|part| match multi_parts_to_jobs.get(part) {
                     Some(last_time) => last_time == job_id,
                     None => true, //not present.
-                }
-            } else {
-                return true;
-            }
+                })
         };
 
         let mut out = self.history.clone();
@@ -741,7 +740,7 @@ impl<T: PPGEvaluatorStrategy> PPGEvaluator<T> {
                             _ => {
                                 //if it's from a multi-output job that was producing different
                                 //stuff before,
-                                filter_if_renamed(job_id_a)
+                                filter_if_renamed(job_id_a) && filter_if_renamed(job_id_b)
                             }
                         }
                     } else {
